@@ -1,5 +1,5 @@
 """C06 flush_log() returns only after all earlier statements are written and flushed."""
-from lib import vf, opxlib
+from lib import vf, opxlib, wmmlib
 
 LEVEL = "model_checking"
 SRC = "engines/opx/sc_c06.cpp"
@@ -7,6 +7,7 @@ SRC = "engines/opx/sc_c06.cpp"
 
 def prebuild():
     opxlib.build("sc_c06", SRC)
+    wmmlib.build_sys()
 
 
 def jobs(tier):
@@ -22,7 +23,9 @@ def jobs(tier):
     add("c06.ub", 2, grace=0, adv=0, a=2, b=1, file=1, flushint_ms=200)
     add("c06.ub", 1 if q else 2, grace=0, adv=0, a=1, b=1, f3=1, flushint_ms=200)
     # each logger lists the shared sink first and a sink of its own after it: every sink of the logger is written and flushed
-    add("c06.ub", 1 if q else 2, grace=0, adv=0, a=1, b=1, f3=1, layout=1, flushint_ms=200)
+    add("c06.ub", 2, grace=0, adv=0, a=1, b=1, layout=1, flushint_ms=200)
+    if not q:
+        add("c06.ub", 2, grace=0, adv=0, a=1, b=1, f3=1, layout=1, flushint_ms=200)
     add("c06.ub", 1 if q else 2, grace=1, adv=1, a=1, b=1, layout=1, flushint_ms=200, sleepadv_ns=2000)
     # the other thread's queue has grown to a second buffer while the read pass ended on the hard limit at the end of the
     # first one; batch processing of the cached events
@@ -54,8 +57,24 @@ def run(ctx):
     ctx.set_deadline(170 if ctx.tier == "quick" else 1800)
     exe = opxlib.build("sc_c06", SRC)
     opxlib.run_jobs(ctx, exe, jobs(ctx.tier), "sc_c06")
+    # below Engine B's granularity: real first use, real log calls and the real flush_log() (request + wait loop) against real
+    # backend polls at every atomic operation; at the instant flush_log returns the caller's earlier statements are at the sink;
+    # a flush_log that is still waiting after the backend polled on demand is a violation
+    hs = wmmlib.build_sys()
+    q = ctx.tier == "quick"
+    sj = [wmmlib.sys_job(hs, "sys", 0, 1, "l1,f0"), wmmlib.sys_job(hs, "sys", 0, 2, "l1,l2,f0,l3"), wmmlib.sys_job(hs, "sys", 0, 1, "f0,l1,f0"),
+          wmmlib.sys_job(hs, "sysbd", 0, 1, "l1,l2,l3,l4,f0"), wmmlib.sys_job(hs, "sysbd", 0, 1, "l1,l2,l3,f0,l4"),
+          wmmlib.sys_job(hs, "sys", 1, 0, "l1,f0", "l1"), wmmlib.sys_job(hs, "sys", 1, 1, "f0", "l1")]
+    if not q:
+        sj += [wmmlib.sys_job(hs, "sys", 0, 2, "l1,l2,l3,l4,f0", deadline=1500), wmmlib.sys_job(hs, "sys", 1, 1, "l1,f0", "l1", deadline=1500),
+               wmmlib.sys_job(hs, "sys", 1, 1, "l1,f0", "f0", deadline=1500), wmmlib.sys_job(hs, "sys", 0, 1, "f0", "l1", deadline=1500)]
+    wmmlib.run_sys(ctx, sj)
+    ctx.rule += ("; whole-system exploration at atomic-operation granularity (Engine A): real registration, log calls and flush_log of one or two "
+                 "threads against real backend polls, all interleavings and C++11-admissible load values")
     ctx.assumptions.append("system clock virtualised (1 ns per read, explicit advances, sleeps advance at least the requested time); TSC not controllable; user clock outside the claim")
 
 
 def replay(rep, extra):
+    if wmmlib.is_sys_record(rep["record"]):
+        return wmmlib.replay_sys("C06", rep)
     return opxlib.replay("C06", opxlib.build("sc_c06", SRC), rep)
